@@ -28,11 +28,15 @@ use std::{
     io::{Read, Write},
     path::{Path, PathBuf},
     sync::{
-        Arc, RwLock,
+        Arc,
         atomic::{AtomicU64, AtomicUsize, Ordering},
     },
     time::{Duration, Instant, SystemTime},
 };
+#[cfg(feature = "verif-hooks")]
+use crate::verif_hooks::sync::RwLock;
+#[cfg(not(feature = "verif-hooks"))]
+use std::sync::RwLock;
 use tokio::{sync::Semaphore, time::interval};
 
 /// Magic bytes at the start of every cache file
